@@ -30,10 +30,12 @@ from ..core import Ctx, Report, pmap
 from ..tlc import MachineryError, fn_to_dict
 
 ALL_TPLS = ["chain", "cycle", "bi", "split", "homo", "tri"]
+ALL_ORDS = ("std", "swap", "rev", "swaprev")
 DOUBLED_TPLS = ["homo", "dimer"]          # a compound with stoichiometric coefficient 2 (substrate side / product side)
 
 CFG = """CONSTANTS
     Tpls = {tpls}
+    Ords = {ords}
     MaxNL = {maxnl}
     MaxL = {maxl}
     Focus = {focus}
@@ -50,14 +52,15 @@ INVARIANT ThLinIsIso
 INVARIANT ThUniform
 INVARIANT ThZero
 INVARIANT ThInvol
+INVARIANT ThParam
 INVARIANT ThSafe
 INVARIANT Emit
 CHECK_DEADLOCK FALSE
 """
 
 
-def cfg_text(tpls, maxnl, maxl, invol=False, distall=False, focus=True, dists=(1, 2, 3, 4)) -> str:
-    return CFG.format(dists="{" + ", ".join(str(d) for d in dists) + "}", tpls="{" + ", ".join(f'"{t}"' for t in tpls) + "}", maxnl=maxnl, maxl=maxl,
+def cfg_text(tpls, maxnl, maxl, invol=False, distall=False, focus=True, dists=(1, 2, 3, 4), ords=("std",)) -> str:
+    return CFG.format(ords="{" + ", ".join(f'"{o}"' for o in ords) + "}", dists="{" + ", ".join(str(d) for d in dists) + "}", tpls="{" + ", ".join(f'"{t}"' for t in tpls) + "}", maxnl=maxnl, maxl=maxl,
                       focus="TRUE" if focus else "FALSE",
                       invol="TRUE" if invol else "FALSE", distall="TRUE" if distall else "FALSE")
 
@@ -160,6 +163,22 @@ def observe(scn: dict) -> dict:
             obs["lin"].append({"de": {k: float(v) for k, v in de.to_dict().items()}})
         except Exception as e:  # noqa: BLE001
             obs["lin"].append({"error": f"{type(e).__name__}: {str(e)[:200]}"})
+    # the external enrichment as a parameter of the built model: build with x0, then update_parameter("EXT", x)
+    obs["hist"] = []
+    for h in scn.get("hist", []):
+        steps = []
+        try:
+            m = mapper.build_model(concs=pd.Series(pool, dtype=float), fluxes=pd.Series(flux, dtype=float),
+                                   external_label=float(lk.frac(h["x0"])))
+            for st in h["steps"]:
+                m.update_parameter("EXT", float(lk.frac(st["x"])))
+                e = {k: float(lk.frac(v)) for k, v in fn_to_dict(st["e"]).items()}
+                ue = {k: float(lk.frac(v)) for k, v in fn_to_dict(st["ue"]).items()}
+                steps.append({"de": {k: float(v) for k, v in m.get_right_hand_side(e).to_dict().items()},
+                              "ude": {k: float(v) for k, v in m.get_right_hand_side(ue).to_dict().items()}})
+        except Exception as ex:  # noqa: BLE001
+            steps.append({"error": f"{type(ex).__name__}: {str(ex)[:200]}"})
+        obs["hist"].append(steps)
     return obs
 
 
@@ -185,6 +204,23 @@ def judge(scn: dict, obs: dict) -> dict | None:
                         "e": {k: str(lk.frac(q)) for k, q in fn_to_dict(ev["e"]).items()},
                         "expected": str(v), "observed": o["de"][n],
                         "isotopomer_model_says": obs["iso_rates"].get(n) if ev is scn["evals"][0] else None}
+    # (c) the linear model after the external enrichment was changed on the built model
+    for h, steps in zip(scn.get("hist", []), obs["hist"]):
+        trail = [str(lk.frac(h["x0"]))]
+        for st, o in zip(h["steps"], steps + [{"error": "not reached"}] * len(h["steps"])):
+            trail.append(str(lk.frac(st["x"])))
+            if "error" in o:
+                return {"what": "build/update refused: EXT history " + " -> ".join(trail), "observed": o["error"]}
+            for field, efield, label in (("de", "e", "rates"), ("ude", "ue", "uniform enrichment equal to EXT")):
+                exp = {k: lk.frac(v) for k, v in fn_to_dict(st[field]).items()}
+                if set(exp) != set(o[field]):
+                    return {"what": "variables of the linear model", "expected": sorted(exp), "observed": sorted(o[field])}
+                for n, v in exp.items():
+                    if not _close(v, o[field][n]):
+                        return {"what": f"linear model: {label} after build_model(external_label={trail[0]}) and "
+                                        f"update_parameter('EXT', ...) along {' -> '.join(trail[1:])}",
+                                "position": n, "expected": str(v), "observed": o[field][n],
+                                "e": {k: str(lk.frac(q)) for k, q in fn_to_dict(st[efield]).items()}}
     return None
 
 
@@ -208,7 +244,7 @@ def _work(scn: dict):
 
 
 def case_key(scn: dict) -> str:
-    return json.dumps([scn["tpl"], scn["b"]["nl"], [[r["name"], r["map"]] for r in scn["b"]["rxns"]], scn["dk"]], sort_keys=True)
+    return json.dumps([scn["tpl"], scn.get("ord"), scn["b"]["nl"], [[r["name"], r["map"]] for r in scn["b"]["rxns"]], scn["dk"]], sort_keys=True)
 
 
 def nontrivial(scn: dict) -> bool:
@@ -260,16 +296,20 @@ def _record(cid: str, model, nl: dict, maps: dict, rnd: random.Random, seed=None
     if seed is not None:
         case["seed"] = seed
     mapper = LinearLabelMapper(model, label_variables=dict(nl), label_maps=maps)
-    for x, e, fromy in ((Fraction(1), e_y, True), (Fraction(1, 3), e_y, True), (Fraction(1, 2), e_rand, False)):
+    # (x0: the enrichment given to build_model; when different from x, x is set afterwards with update_parameter)
+    for x, e, fromy, x0 in ((Fraction(1), e_y, True, Fraction(1)), (Fraction(1, 3), e_y, True, Fraction(1, 3)),
+                            (Fraction(1, 2), e_rand, False, Fraction(0)), (Fraction(1), e_y, True, Fraction(0))):
         try:
             m = mapper.build_model(concs=pd.Series({k: float(v) for k, v in init.items()}), fluxes=pd.Series(fluxes),
-                                   external_label=float(x))
+                                   external_label=float(x0))
+            if x0 != x:
+                m.update_parameter("EXT", float(x))
             de = m.get_right_hand_side({k: float(v) for k, v in e.items()})
             de = {k: snap(float(v)) for k, v in de.to_dict().items()}
         except Exception as ex:  # noqa: BLE001
             de = {}
             case["error"] = f"{type(ex).__name__}: {str(ex)[:200]}"
-        case["evals"].append({"x": _rat(x), "fromy": fromy, "e": {k: _rat(v) for k, v in e.items()}, "de": de})
+        case["evals"].append({"x": _rat(x), "built_with": _rat(x0), "fromy": fromy, "e": {k: _rat(v) for k, v in e.items()}, "de": de})
     return case
 
 
@@ -305,13 +345,17 @@ def _random_case(args) -> dict:
 
     seed, cid = args
     rnd = random.Random(seed)
-    kind = rnd.choice(["path", "ring", "branch"])
-    n = rnd.randint(2, 3) if kind != "branch" else 3
+    kind = rnd.choice(["path", "ring", "branch", "merge"])
+    n = rnd.randint(2, 3) if kind in ("path", "ring") else 3
     cpds = ["P", "Q", "R"][:n]
     v = 12 * rnd.randint(1, 3)
     pools_menu = [2, 3, 4, 6, 12]
     rnd.shuffle(pools_menu)
+    if kind == "merge":                      # P * Q must divide the flux
+        pools_menu = rnd.choice([[2, 3, 4], [3, 2, 12], [2, 6, 3], [3, 4, 6], [4, 3, 2], [6, 2, 4]])
     pool = {c: pools_menu[j] for j, c in enumerate(cpds)}
+    if rnd.random() < 0.5:                   # variables declared in another order than they appear in the reactions
+        pool = {c: pool[c] for c in cpds[::-1]}
     nl = {c: rnd.randint(1, 3) for c in cpds}
     m = Model()
     m.add_variables(pool)
@@ -324,8 +368,12 @@ def _random_case(args) -> dict:
     elif kind == "ring":
         for j in range(n):
             rx.append((f"r{j + 1}", [cpds[j]], [cpds[(j + 1) % n]]))
-    else:
+    elif kind == "branch":
         rx += [("r0", [], ["P"]), ("r1", ["P"], ["Q", "R"]), ("r2", ["Q"], []), ("r3", ["R"], [])]
+    else:
+        rx += [("r0", [], ["P"]), ("r4", [], ["Q"]), ("r1", ["P", "Q"], ["R"]), ("r2", ["R"], [])]
+    if rnd.random() < 0.5:                   # reactions declared in another order
+        rnd.shuffle(rx)
     maps = {}
     for name, subs, prods in rx:
         k = v
@@ -385,7 +433,7 @@ def tlc_families(ctx: Ctx, rep: Report, fams: list[dict]) -> list[dict]:
 def run(ctx: Ctx) -> int:
     rep = Report(ctx)
     rep.rule = ("one case = (steady network, label counts, one map per reaction, isotopomer distribution with the "
-                "steady pools) evaluated at 7 (enrichment, EXT) pairs; non-trivial = some map is not the identity; "
+                "steady pools) evaluated at 7 (enrichment, EXT) pairs and along 3 build/update histories of EXT; non-trivial = some map is not the identity; "
                 "distinct by (network, label counts, maps, distribution)")
     rep.assumptions = [
         "mass-action base models with integer pools, rate constants and fluxes at an exact steady state; every "
@@ -419,6 +467,11 @@ def run(ctx: Ctx) -> int:
             dict(name="doubled", what="exhaustive: 2A->B and A->2B networks, label counts 1..2 (doubled compound with 2 positions), "
                  "involutive maps only, max(S,P)<=4, every combination of the two non-uniform distributions",
                  tpls=DOUBLED_TPLS, maxnl=2, maxl=4, invol=True, distall=True, dists=(3, 4)),
+            # declaration order of variables / reactions and order of the compounds inside a stoichiometry dict as
+            # explicit dimensions for the merge and the split (B + A -> C declared against the variable order etc.)
+            dict(name="orders", what="exhaustive: A+B->C and A->B+C networks in all four presentation orders (compounds of a side "
+                 "swapped, variables and reactions declared in reverse), label counts 1..2, involutive maps only, max(S,P)<=3",
+                 tpls=["bi", "split"], maxnl=2, maxl=3, invol=True, ords=ALL_ORDS),
         ]
     else:
         fams = [
@@ -435,6 +488,11 @@ def run(ctx: Ctx) -> int:
             dict(name="doubled", what="exhaustive: 2A->B and A->2B networks, label counts 1..3 (doubled compound with 2-3 positions), "
                  "involutive maps only, max(S,P)<=6, every combination of the two non-uniform distributions",
                  tpls=DOUBLED_TPLS, maxnl=3, maxl=6, invol=True, distall=True, dists=(3, 4)),
+            dict(name="orders", what="exhaustive: A+B->C and A->B+C networks in all four presentation orders, label counts 1..3, "
+                 "involutive maps only, max(S,P)<=6, non-uniform distributions",
+                 tpls=["bi", "split"], maxnl=3, maxl=6, invol=True, ords=ALL_ORDS, distall=True, dists=(3, 4)),
+            dict(name="orders_all", what="exhaustive: A+B->C and A->B+C networks, orders swap and swaprev, label counts 1..2, all maps max(S,P)<=3",
+                 tpls=["bi", "split"], maxnl=2, maxl=3, ords=("swap", "swaprev")),
             dict(name="doubled_all", what="exhaustive: A->2B network, label counts 1..2, all maps max(S,P)<=4, non-uniform distributions",
                  tpls=["dimer"], maxnl=2, maxl=4, distall=True, dists=(3, 4)),
         ]
@@ -456,7 +514,11 @@ def run(ctx: Ctx) -> int:
     n_dbl = sum(1 for s in scns if doubled_case(s))
     if n_dbl < 100:
         raise MachineryError(f"only {n_dbl} involutive cases with a doubled multi-position compound and unequal enrichments")
+    n_ord = sum(1 for s in scns if s["involutive"] and s.get("ord") in ("swap", "swaprev") and s["tpl"] in ("bi", "split"))
+    if n_ord < 100:
+        raise MachineryError(f"only {n_ord} involutive merge/split cases whose compounds are written against the declaration order")
     rep.notes["cases"] = {"total": len(scns), "all_maps_involutive": n_inv, "doubled_multi_position_involutive": n_dbl,
+                          "merge_split_against_declaration_order_involutive": n_ord,
                           "by_template": {t: sum(1 for s in scns if s["tpl"] == t) for t in ALL_TPLS + ["dimer"]}}
     # ---- binding self-test: one corrupted expected value must be noticed by the comparison ---------------------
     probe = next(s for s in scns if s["involutive"] and s["tpl"] == "bi")
@@ -483,7 +545,7 @@ def run(ctx: Ctx) -> int:
         if bad is None:
             agree_inv += 1 if scn["involutive"] else 0
         else:
-            slim = {k: scn[k] for k in ("tpl", "b", "dk", "pool", "flux", "y", "involutive", "evals")}
+            slim = {k: scn[k] for k in ("tpl", "ord", "b", "dk", "pool", "flux", "y", "involutive", "evals", "hist")}
             rep.mismatch(slim, bad, classify(scn, bad))
     rep.notes["involutive_cases_conforming"] = agree_inv
     for s in [x for x in scns if x["involutive"] and nontrivial(x)][:: max(1, n_inv // 3)][:3]:
